@@ -31,7 +31,7 @@ use std::sync::atomic::{AtomicU64, AtomicUsize, Ordering};
 
 /// What one backend did with one value / input.
 #[derive(Debug, Clone, PartialEq)]
-enum Ser {
+pub enum Ser {
     Bytes(Vec<u8>),
     Error(String),
     /// the backend has no such operation for this type (e.g. no concrete Java class)
@@ -39,7 +39,7 @@ enum Ser {
 }
 
 #[derive(Debug, Clone, PartialEq)]
-enum Par {
+pub enum Par {
     Reject(String),
     /// accepted at the level of the type itself: field values (and payload)
     Accept(J),
@@ -51,18 +51,18 @@ enum Par {
 }
 
 /// Operations of one (state, byte order) as reported by the Rust harness.
-struct TypeOps {
-    name: String,
-    is_struct: bool,
-    values: Vec<Val>,
-    inputs: Vec<Vec<u8>>,
-    rust_enc: Vec<Ser>,
-    rust_dec: Vec<Par>,
+pub struct TypeOps {
+    pub name: String,
+    pub is_struct: bool,
+    pub values: Vec<Val>,
+    pub inputs: Vec<Vec<u8>>,
+    pub rust_enc: Vec<Ser>,
+    pub rust_dec: Vec<Par>,
 }
 
-struct StateOps {
-    le: Vec<TypeOps>,
-    be: Vec<TypeOps>,
+pub struct StateOps {
+    pub le: Vec<TypeOps>,
+    pub be: Vec<TypeOps>,
 }
 
 fn parse_rust_observation(types: &J, inl: &Desc) -> Vec<TypeOps> {
@@ -342,6 +342,157 @@ fn values_agree(a: &J, b: &J) -> bool {
     }
 }
 
+
+pub type Leg = BTreeMap<(usize, bool, String), (Vec<Ser>, Vec<Par>)>;
+
+/// Which of the out-of-process backends take part in a run of `legs`.
+#[derive(Clone, Copy)]
+pub struct Which {
+    pub python: bool,
+    pub cxx: bool,
+    pub java: bool,
+}
+
+pub struct Legs {
+    pub py: Leg,
+    pub cx: Leg,
+    pub jv: Leg,
+    /// (state, backend, first error line)
+    pub compile_errors: Vec<(usize, String, String)>,
+    pub gxx_ms: u64,
+    pub javac_ms: u64,
+}
+
+/// Hand the operations in `ops_by_state` to the Python, C++ and Java drivers (those selected by
+/// `which(state)`) and collect their raw observations.
+pub fn legs(label: &str, tier: Tier, states: &[&Selected], ops_by_state: &BTreeMap<usize, StateOps>, which: &(dyn Fn(&Selected) -> Which + Sync)) -> Result<Legs, String> {
+    let thorough = tier == Tier::Thorough;
+    let root = PathBuf::from(format!("{VERIF_DIR}/work/{label}_{}", tier_name(tier)));
+    let _ = std::fs::remove_dir_all(&root);
+    let (pyroot, hdr, jsrc, jdrv) = (root.join("py"), root.join("cxx/hdr"), root.join("java/src"), root.join("java/drv"));
+    for d in [&pyroot, &hdr, &jsrc, &jdrv] {
+        std::fs::create_dir_all(d).expect("mkdir");
+    }
+    javagen::build_driver(&jdrv)?;
+    let python: String = Command::new("python3").args(["-c", "import sys; print(sys.executable)"]).output().ok().map(|o| String::from_utf8_lossy(&o.stdout).trim().to_string()).filter(|s| !s.is_empty()).unwrap_or_else(|| "python3".to_string());
+    let group = 12usize;
+    let ctimers = cxxgen::Timers { cc: AtomicU64::new(0), run: AtomicU64::new(0) };
+    let jtimers = javagen::Timers { cc: AtomicU64::new(0), run: AtomicU64::new(0) };
+    let skipped = AtomicUsize::new(0);
+    let groups: Vec<(usize, &[&Selected])> = states.chunks(group).enumerate().collect();
+    let legs: Vec<(Leg, Leg, Leg, Vec<(usize, String, String)>)> = groups
+        .par_iter()
+        .map(|(k, sts)| {
+            let mut py: Leg = BTreeMap::new();
+            let mut cx: Leg = BTreeMap::new();
+            let mut jv: Leg = BTreeMap::new();
+            let mut compile_errors: Vec<(usize, String, String)> = vec![];
+            // python: one module per state and byte order
+            for st in sts.iter().filter(|s| which(s).python) {
+                for ((big, ty), v) in python_leg(st, &ops_by_state[&st.id], &pyroot, &python) {
+                    py.insert((st.id, big, ty), v);
+                }
+            }
+            // c++
+            let cunits: Vec<cxxgen::Unit> = sts
+                .iter()
+                .filter(|s| which(s).cxx)
+                .filter_map(|st| {
+                    let so = &ops_by_state[&st.id];
+                    cxxgen::prepare(st, &hdr, thorough, &skipped, Some(&cxxgen::ExtOps { le: ext_list(&so.le), be: ext_list(&so.be) }))
+                })
+                .collect();
+            let crefs: Vec<&cxxgen::Unit> = cunits.iter().collect();
+            if !crefs.is_empty() {
+                let raws = cxxgen::run_group_raw(&crefs, &root.join(format!("cxx/g{k}")), &hdr, thorough, false, &ctimers);
+                for (u, raw) in cunits.iter().zip(raws) {
+                    let so = &ops_by_state[&u.st.id];
+                    match raw {
+                        cxxgen::Raw::CompileError(e) => compile_errors.push((u.st.id, "cxx".into(), e)),
+                        cxxgen::Raw::Ran { res_a, .. } => {
+                            for (big, tops) in [(false, &so.le), (true, &so.be)] {
+                                let kinds: Vec<(String, bool)> = u.ops.iter().filter(|o| o.big == big).map(|o| (o.ty.clone(), matches!(o.input, OpIn::Build(_)))).collect();
+                                let res: Vec<OpOut> = u.ops.iter().zip(res_a.iter()).filter(|(o, _)| o.big == big).map(|(_, r)| r.clone()).collect();
+                                for (ty, (b, p)) in split_ops(tops, &res, &kinds) {
+                                    let t = tops.iter().find(|t| t.name == ty).unwrap();
+                                    let sers: Vec<Ser> = b.iter().map(|l| cxx_obs(l, true, t.is_struct, 0).0.unwrap_or(Ser::Absent)).collect();
+                                    let pars: Vec<Par> = p.iter().zip(t.inputs.iter()).map(|(l, inp)| cxx_obs(l, false, t.is_struct, inp.len()).1.unwrap_or(Par::Absent)).collect();
+                                    cx.insert((u.st.id, big, ty), (sers, pars));
+                                }
+                            }
+                        }
+                    }
+                }
+            }
+            // java
+            let junits: Vec<javagen::Unit> = sts
+                .iter()
+                .filter(|s| which(s).java)
+                .filter_map(|st| {
+                    let so = &ops_by_state[&st.id];
+                    javagen::prepare(st, &jsrc, thorough, Some(&javagen::ExtOps { le: ext_list(&so.le), be: ext_list(&so.be) }))
+                })
+                .collect();
+            let jrefs: Vec<&javagen::Unit> = junits.iter().collect();
+            if !jrefs.is_empty() {
+                let raws = javagen::run_group_raw(&jrefs, &root.join(format!("java/g{k}")), &jsrc, &jdrv, &jtimers);
+                for (u, raw) in junits.iter().zip(raws) {
+                    let so = &ops_by_state[&u.st.id];
+                    match raw {
+                        javagen::Raw::CompileError(e) => compile_errors.push((u.st.id, "java".into(), e)),
+                        javagen::Raw::Ran(res) => {
+                            for (big, tops) in [(false, &so.le), (true, &so.be)] {
+                                let d = u.st.desc.with_endian(if big { Endian::Big } else { Endian::Little });
+                                let inl = match rules::inline_groups(&d) {
+                                    Some(i) => i,
+                                    None => continue,
+                                };
+                                // java issues only the operations its classes offer: align by (type, kind, ordinal)
+                                for t in tops {
+                                    let mut sers: Vec<Ser> = vec![];
+                                    let mut pars: Vec<Par> = vec![];
+                                    let mine: Vec<(&javagen::JOp, &OpOut)> = u.ops.iter().zip(res.iter()).filter(|(o, _)| o.big == big && o.ty == t.name).collect();
+                                    let builds: Vec<&OpOut> = mine.iter().filter(|(o, _)| matches!(o.input, OpIn::Build(_))).map(|(_, r)| *r).collect();
+                                    let parses: Vec<&OpOut> = mine.iter().filter(|(o, _)| matches!(o.input, OpIn::Parse(_))).map(|(_, r)| *r).collect();
+                                    for i in 0..t.values.len() {
+                                        sers.push(match builds.get(i) {
+                                            Some(l) if builds.len() == t.values.len() => java_obs(l, true, &t.name, &inl).0.unwrap_or(Ser::Absent),
+                                            _ => Ser::Absent,
+                                        });
+                                    }
+                                    for i in 0..t.inputs.len() {
+                                        pars.push(match parses.get(i) {
+                                            Some(l) if parses.len() == t.inputs.len() => java_obs(l, false, &t.name, &inl).1.unwrap_or(Par::Absent),
+                                            _ => Par::Absent,
+                                        });
+                                    }
+                                    jv.insert((u.st.id, big, t.name.clone()), (sers, pars));
+                                }
+                            }
+                        }
+                    }
+                }
+            }
+            if std::env::var("PDLMC_KEEP").is_err() {
+                let _ = std::fs::remove_dir_all(root.join(format!("cxx/g{k}")));
+                let _ = std::fs::remove_dir_all(root.join(format!("java/g{k}")));
+            }
+            (py, cx, jv, compile_errors)
+        })
+        .collect();
+    let mut out = Legs { py: BTreeMap::new(), cx: BTreeMap::new(), jv: BTreeMap::new(), compile_errors: vec![], gxx_ms: ctimers.cc.load(Ordering::Relaxed), javac_ms: jtimers.cc.load(Ordering::Relaxed) };
+    for (a, b, c, e) in legs {
+        out.py.extend(a);
+        out.cx.extend(b);
+        out.jv.extend(c);
+        out.compile_errors.extend(e);
+    }
+    if std::env::var("PDLMC_KEEP").is_err() {
+        let _ = std::fs::remove_dir_all(&root);
+    }
+    Ok(out)
+}
+
 const BACKENDS: [&str; 4] = ["rust", "python", "cxx", "java"];
 
 pub fn check(tier: Tier) -> i32 {
@@ -424,133 +575,16 @@ pub fn check(tier: Tier) -> i32 {
         }
     }
     // 4. the other three legs
-    let root = PathBuf::from(format!("{VERIF_DIR}/work/c07_{}", tier_name(tier)));
-    let _ = std::fs::remove_dir_all(&root);
-    let (pyroot, hdr, jsrc, jdrv) = (root.join("py"), root.join("cxx/hdr"), root.join("java/src"), root.join("java/drv"));
-    for d in [&pyroot, &hdr, &jsrc, &jdrv] {
-        std::fs::create_dir_all(d).expect("mkdir");
-    }
-    if let Err(e) = javagen::build_driver(&jdrv) {
-        eprintln!("machinery: {e}");
-        return 2;
-    }
-    let python: String = Command::new("python3").args(["-c", "import sys; print(sys.executable)"]).output().ok().map(|o| String::from_utf8_lossy(&o.stdout).trim().to_string()).filter(|s| !s.is_empty()).unwrap_or_else(|| "python3".to_string());
     let states: Vec<&Selected> = chosen.iter().copied().filter(|s| ops_by_state.contains_key(&s.id)).collect();
-    let group = 12usize;
-    let ctimers = cxxgen::Timers { cc: AtomicU64::new(0), run: AtomicU64::new(0) };
-    let jtimers = javagen::Timers { cc: AtomicU64::new(0), run: AtomicU64::new(0) };
-    let skipped = AtomicUsize::new(0);
-    type Leg = BTreeMap<(usize, bool, String), (Vec<Ser>, Vec<Par>)>;
-    let groups: Vec<(usize, &[&Selected])> = states.chunks(group).enumerate().collect();
-    let legs: Vec<(Leg, Leg, Leg, Vec<(usize, String, String)>)> = groups
-        .par_iter()
-        .map(|(k, sts)| {
-            let mut py: Leg = BTreeMap::new();
-            let mut cx: Leg = BTreeMap::new();
-            let mut jv: Leg = BTreeMap::new();
-            let mut compile_errors: Vec<(usize, String, String)> = vec![];
-            // python: one module per state and byte order
-            for st in sts.iter() {
-                for ((big, ty), v) in python_leg(st, &ops_by_state[&st.id], &pyroot, &python) {
-                    py.insert((st.id, big, ty), v);
-                }
-            }
-            // c++
-            let cunits: Vec<cxxgen::Unit> = sts
-                .iter()
-                .filter_map(|st| {
-                    let so = &ops_by_state[&st.id];
-                    cxxgen::prepare(st, &hdr, thorough, &skipped, Some(&cxxgen::ExtOps { le: ext_list(&so.le), be: ext_list(&so.be) }))
-                })
-                .collect();
-            let crefs: Vec<&cxxgen::Unit> = cunits.iter().collect();
-            if !crefs.is_empty() {
-                let raws = cxxgen::run_group_raw(&crefs, &root.join(format!("cxx/g{k}")), &hdr, thorough, false, &ctimers);
-                for (u, raw) in cunits.iter().zip(raws) {
-                    let so = &ops_by_state[&u.st.id];
-                    match raw {
-                        cxxgen::Raw::CompileError(e) => compile_errors.push((u.st.id, "cxx".into(), e)),
-                        cxxgen::Raw::Ran { res_a, .. } => {
-                            for (big, tops) in [(false, &so.le), (true, &so.be)] {
-                                let kinds: Vec<(String, bool)> = u.ops.iter().filter(|o| o.big == big).map(|o| (o.ty.clone(), matches!(o.input, OpIn::Build(_)))).collect();
-                                let res: Vec<OpOut> = u.ops.iter().zip(res_a.iter()).filter(|(o, _)| o.big == big).map(|(_, r)| r.clone()).collect();
-                                for (ty, (b, p)) in split_ops(tops, &res, &kinds) {
-                                    let t = tops.iter().find(|t| t.name == ty).unwrap();
-                                    let sers: Vec<Ser> = b.iter().map(|l| cxx_obs(l, true, t.is_struct, 0).0.unwrap_or(Ser::Absent)).collect();
-                                    let pars: Vec<Par> = p.iter().zip(t.inputs.iter()).map(|(l, inp)| cxx_obs(l, false, t.is_struct, inp.len()).1.unwrap_or(Par::Absent)).collect();
-                                    cx.insert((u.st.id, big, ty), (sers, pars));
-                                }
-                            }
-                        }
-                    }
-                }
-            }
-            // java
-            let junits: Vec<javagen::Unit> = sts
-                .iter()
-                .filter_map(|st| {
-                    let so = &ops_by_state[&st.id];
-                    javagen::prepare(st, &jsrc, thorough, Some(&javagen::ExtOps { le: ext_list(&so.le), be: ext_list(&so.be) }))
-                })
-                .collect();
-            let jrefs: Vec<&javagen::Unit> = junits.iter().collect();
-            if !jrefs.is_empty() {
-                let raws = javagen::run_group_raw(&jrefs, &root.join(format!("java/g{k}")), &jsrc, &jdrv, &jtimers);
-                for (u, raw) in junits.iter().zip(raws) {
-                    let so = &ops_by_state[&u.st.id];
-                    match raw {
-                        javagen::Raw::CompileError(e) => compile_errors.push((u.st.id, "java".into(), e)),
-                        javagen::Raw::Ran(res) => {
-                            for (big, tops) in [(false, &so.le), (true, &so.be)] {
-                                let d = u.st.desc.with_endian(if big { Endian::Big } else { Endian::Little });
-                                let inl = match rules::inline_groups(&d) {
-                                    Some(i) => i,
-                                    None => continue,
-                                };
-                                // java issues only the operations its classes offer: align by (type, kind, ordinal)
-                                for t in tops {
-                                    let mut sers: Vec<Ser> = vec![];
-                                    let mut pars: Vec<Par> = vec![];
-                                    let mine: Vec<(&javagen::JOp, &OpOut)> = u.ops.iter().zip(res.iter()).filter(|(o, _)| o.big == big && o.ty == t.name).collect();
-                                    let builds: Vec<&OpOut> = mine.iter().filter(|(o, _)| matches!(o.input, OpIn::Build(_))).map(|(_, r)| *r).collect();
-                                    let parses: Vec<&OpOut> = mine.iter().filter(|(o, _)| matches!(o.input, OpIn::Parse(_))).map(|(_, r)| *r).collect();
-                                    for i in 0..t.values.len() {
-                                        sers.push(match builds.get(i) {
-                                            Some(l) if builds.len() == t.values.len() => java_obs(l, true, &t.name, &inl).0.unwrap_or(Ser::Absent),
-                                            _ => Ser::Absent,
-                                        });
-                                    }
-                                    for i in 0..t.inputs.len() {
-                                        pars.push(match parses.get(i) {
-                                            Some(l) if parses.len() == t.inputs.len() => java_obs(l, false, &t.name, &inl).1.unwrap_or(Par::Absent),
-                                            _ => Par::Absent,
-                                        });
-                                    }
-                                    jv.insert((u.st.id, big, t.name.clone()), (sers, pars));
-                                }
-                            }
-                        }
-                    }
-                }
-            }
-            if std::env::var("PDLMC_KEEP").is_err() {
-                let _ = std::fs::remove_dir_all(root.join(format!("cxx/g{k}")));
-                let _ = std::fs::remove_dir_all(root.join(format!("java/g{k}")));
-            }
-            (py, cx, jv, compile_errors)
-        })
-        .collect();
-    eprintln!("C07: python / c++ / java legs done ({:.1}s); g++={}ms javac={}ms", ev.start.elapsed().as_secs_f64(), ctimers.cc.load(Ordering::Relaxed), jtimers.cc.load(Ordering::Relaxed));
-    let mut py: Leg = BTreeMap::new();
-    let mut cx: Leg = BTreeMap::new();
-    let mut jv: Leg = BTreeMap::new();
-    let mut compile_errors = vec![];
-    for (a, b, c, e) in legs {
-        py.extend(a);
-        cx.extend(b);
-        jv.extend(c);
-        compile_errors.extend(e);
-    }
+    let l = match legs("c07", tier, &states, &ops_by_state, &|_| Which { python: true, cxx: true, java: true }) {
+        Ok(l) => l,
+        Err(e) => {
+            eprintln!("machinery: {e}");
+            return 2;
+        }
+    };
+    eprintln!("C07: python / c++ / java legs done ({:.1}s); g++={}ms javac={}ms", ev.start.elapsed().as_secs_f64(), l.gxx_ms, l.javac_ms);
+    let (py, cx, jv, compile_errors) = (l.py, l.cx, l.jv, l.compile_errors);
     // 5. compare
     let mut rep = Reporter::new("C07");
     let mut counters: BTreeMap<String, usize> = BTreeMap::new();
@@ -686,9 +720,6 @@ pub fn check(tier: Tier) -> i32 {
                 }
             }
         }
-    }
-    if std::env::var("PDLMC_KEEP").is_err() {
-        let _ = std::fs::remove_dir_all(&root);
     }
     let get = |k: &str| counters.get(k).copied().unwrap_or(0);
     ev.set("states", json!(h.explored_states));
